@@ -40,6 +40,7 @@ import (
 	"os"
 	"os/exec"
 	"path"
+	"path/filepath"
 	"regexp"
 	"sort"
 	"strings"
@@ -51,9 +52,9 @@ import (
 	"github.com/uber/kraken/lib/backend/namepath"
 
 	"verif/evid"
-	// part C links the backend clients (which log a path they cannot convert
-	// and skip it): kraken's logger is silenced.
-	_ "verif/quiet"
+	// verif/quiet is not imported here (listing_exec.go imports it for part C):
+	// namepath does not log, and linking kraken's logger (zap, otel, net/http)
+	// triples the start-up cost of every child process of parts A/B.
 )
 
 // ---------------------------------------------------------------------------
@@ -586,13 +587,60 @@ func childMain() {
 var (
 	selfExe  string
 	childEnv []string
+
+	smallOnce sync.Once
+	smallExe  string // "" = the children of parts A/B run selfExe
+	smallNote string
 )
+
+// patherExe: the binary that runs the children of parts A/B (pather
+// histories). Part C links the backend clients with the AWS / GCS SDKs and
+// kraken's logger into this check, which makes every process start 3-4x as
+// expensive as that of a binary that links only namepath -- and parts A/B are
+// ~150 (thorough ~1800) process starts. So the parent builds the SAME package
+// once more with the tag c36small (listing_exec.go and the in-memory stores
+// left out, listing_small.go in), through the same build overlay run.sh used
+// (so a patch under test is in it as well), and runs the pather children from
+// that binary. If that build is not possible (no overlay / go not found) the
+// children run this binary: slower, same results.
+func patherExe() string {
+	smallOnce.Do(func() { smallExe, smallNote = buildSmallChild() })
+	if smallExe == "" {
+		return selfExe
+	}
+	return smallExe
+}
+
+func buildSmallChild() (exe, note string) {
+	if !haveListing {
+		return "", "this binary (it is the small one)"
+	}
+	if os.Getenv("VERIF_C36_ONE_BINARY") != "" {
+		return "", "this binary (VERIF_C36_ONE_BINARY set)"
+	}
+	scratch := os.Getenv("VERIF_SCRATCH")
+	ov := filepath.Join(scratch, "ov", "overlay.json")
+	if _, err := os.Stat(ov); scratch == "" || err != nil {
+		return "", "this binary (no build overlay of run.sh found)"
+	}
+	out := filepath.Join(scratch, "check-c36-small")
+	cmd := exec.Command("go", "build", "-overlay", ov, "-tags", "verif,c36small", "-o", out, "./checks/c36")
+	cmd.Dir = filepath.Join(evid.Root, "engine")
+	if b, err := cmd.CombinedOutput(); err != nil {
+		return "", fmt.Sprintf("this binary (building the small one failed: %v: %.300s)", err, b)
+	}
+	return out, "small binary (same package, build tag c36small: without part C and the backend clients)"
+}
 
 func runChild(sp spec, timeout time.Duration) (*report, error) {
 	in, _ := json.Marshal(sp)
+	exe := selfExe
+	if sp.Listing == nil {
+		exe = patherExe()
+	}
 	ctx, cancel := context.WithTimeout(context.Background(), timeout)
 	defer cancel()
-	cmd := exec.CommandContext(ctx, selfExe)
+	cmd := exec.CommandContext(ctx, exe)
 	cmd.Env = childEnv
 	cmd.Stdin = bytes.NewReader(in)
 	var out, errb bytes.Buffer
@@ -750,6 +798,40 @@ func replay(run *evid.Run, rp string, base spec) {
 	if err := json.Unmarshal(f.Case, &c); err != nil {
 		run.Fatal(err)
 	}
+	var lc struct {
+		Backend  string   `json:"backend"`
+		Scheme   string   `json:"scheme"`
+		Root     string   `json:"root"`
+		Uploaded []string `json:"uploaded"`
+		Class    string   `json:"root_class_of_fingerprint"`
+	}
+	if err := json.Unmarshal(f.Case, &lc); err != nil {
+		run.Fatal(err)
+	}
+	if lc.Backend != "" {
+		sp := base
+		sp.Listing = &listSpec{Backend: lc.Backend, Scheme: lc.Scheme, Roots: []string{lc.Root}, Sets: [][]string{lc.Uploaded}}
+		r, err := runChild(sp, time.Minute)
+		if err != nil {
+			run.Fatal(err)
+		}
+		rr := r.Listing.Roots[0]
+		run.Eval(int(rr.Lists))
+		run.Distinct("replay")
+		run.Distinct("replay2")
+		run.Sample(lc)
+		for _, fl := range rr.Fails {
+			class := lc.Class // the class the full run gave this (backend, scheme, clause)
+			if class == "" {
+				class = listRootClass(fl.Root)
+			}
+			d := listDetail(lc.Backend, lc.Scheme, fl)
+			d["root_class_of_fingerprint"] = class
+			run.Violation(listFP(lc.Backend, lc.Scheme, fl, class), d)
+		}
+		run.Finish()
+		return
+	}
 	if len(h.History) > 0 {
 		inherent := map[use]map[string]bool{}
 		for _, u := range h.History {
@@ -808,10 +890,14 @@ func main() {
 	run.Rule = "Every case runs in a fresh child process of the check (package-level state of the implementation is process state; one process per history). " +
 		"Part A, single use: every (scheme, root, name): scheme in {docker_tag, sharded_docker_blob, identity}; root in 10 roots (depth 0-2, with/without trailing slash, '/', relative roots as shipped in helm config) x names: docker_tag = every repo of 1..k components over 20 words (incl. layout words) x 12 tags, each checked against the Docker reference grammar; sharded = 64-hex digests with the first 2/3 and the last character over all hex values; identity = every clean relative path of length <= L over {a,b,/,.,:,-,_} plus realistic names; plus 6 more roots ('', '//', 'a/', 'a.b', '/a+b/', '/a(b') x the same name domain one size smaller (k-1, first 1/2 hex characters, L-1). " +
 		"Part B, histories of uses (scheme, root) inside one process. quick: every ordered pair (incl. the repeated use) of uses of one scheme over the root spellings {'', '/', a, a/, /a, A}; every ordered pair of two different schemes on the roots '' and 'a/'; per scheme the 8 cyclic rotations of the history that uses all of {'', '/', a, a/, /a, A, a/b, a.b} once. thorough: every ordered pair over 3 schemes x 12 spellings ('', '/', '//', a, a/, /a, /a/, a/b, /a/b/, a.b, A, /a+b); every triple over {docker_tag, sharded_docker_blob} x {'', '/', a, /a}; the 36 cyclic rotations of the history that uses all 36 uses once. Each use creates a pather and round-trips 2-5 probe names; after EVERY use the paths stored by all uses so far are converted back (a later listing) and every earlier use round-trips its names again; every prefix of a history is judged. " +
-		"Oracle everywhere: NameFromBlobPath(BlobPath(name)) must equal name. A failure inside a history that the same use also shows as the first use of a fresh process belongs to the single-use class; any other failure is history-dependent and ends the history. distinct = distinct (scheme, root, name) triples of part A + distinct histories (every judged prefix is one) of part B."
+		"Oracle of parts A and B: NameFromBlobPath(BlobPath(name)) must equal name. A failure inside a history that the same use also shows as the first use of a fresh process belongs to the single-use class; any other failure is history-dependent and ends the history. " +
+		"Part C, listing ('so listings report the names that were uploaded'): for every listing backend in {hdfs, s3, gcs, testfs} x scheme x root spelling of the 20 roots of parts A/B plus '/a.b' (hdfs/s3/gcs: the roots their real constructor accepts, i.e. the 12 absolute ones, hdfs also the empty root = its default; testfs: the 9 roots without a leading slash) x every non-empty set of <= 3 (thorough: all sets) of a 6-name universe per scheme (4 for sharded; names sharing directories / repositories / shards, nested repositories, layout words as repository component and as tag): a FRESH store and a FRESH real client built by the backend's public constructor (hdfsbackend.NewClient+WithWebHDFS over an in-memory name node, s3backend.NewClient+WithS3 over an in-memory S3, gcsbackend.NewClient+WithGCS over an in-memory GCS paged by the real iterator.Pager, testfs.NewClient against the real testfs.Server handler over loopback HTTP); the names are uploaded through Client.Upload one by one, Client.List(\"\") is called after every upload and, after the last one, Client.List(P) for EVERY directory prefix P of the storage paths (relative to the scheme's base directory, read off the real pather) and every storage path itself. Oracle: List(\"\") reports exactly the uploaded names; List(P) reports every uploaded name stored below directory P, only uploaded names whose storage path starts with P as a string, and nothing twice; List and Upload neither fail nor panic. One process per (backend, scheme) (thorough: per 4 roots). " +
+		"distinct = distinct (scheme, root, name) triples of part A + distinct histories (every judged prefix is one) of part B + distinct (backend, scheme, root, uploaded set) of part C."
 	run.Assume("small-scope: roots of depth <= 2 over [a-zA-Z0-9_.+(-], repository names of <= 3 components over a 20-word vocabulary, identity names of <= 5 characters over a 7-character alphabet")
 	run.Assume("valid identity name = clean relative path (non-empty components, no '.'/'..' component, no leading/trailing slash); roots with '.' or '..' COMPONENTS are outside the domain")
 	run.Assume("docker_tag names are repo:tag by the Docker reference grammar without registry host (a host:port prefix is rejected by the scheme itself)")
+	run.Assume("listing part, trusted base: the in-memory stores of checks/c36/fake_hdfs.go (WebHDFS name node: every path normalised as HDFS and kraken's webhdfs client do, LISTSTATUS of a file answers one entry with an empty pathSuffix, of a missing path 404, RENAME without effect when the target exists or its parent is missing), fake_s3.go (sorted keys, string prefix, MaxKeys pages, leading and repeated slashes of a key dropped as the SDK's URI cleaning does) and fake_gcs.go (opaque object names, string prefix, pages through the real iterator.Pager); testfs runs its real server handler on a scratch directory")
+	run.Assume("listing part, domain: a root is a root of hdfs/s3/gcs iff the backend's constructor accepts it (relative roots are rejected: counted, not run); testfs.Server answers paths relative to its own directory, so roots with a leading slash are not roots of testfs (every shipped testfs configuration uses a relative root; with an absolute root every List fails -- observed, not counted as a violation); testfs maps ':' to '/' (documented), so identity names with ':' are not uploaded to it; hdfsbackend's documented catalog shortcut (a listing that passes a <repository>/_manifests directory reports <repository>:dummy instead of the tags) is accepted for docker_tag as standing for the uploaded tags of that repository; identity names that spell the registry layout (.../repositories/<r>/_manifests/...) are not uploaded to hdfs for the same reason; where directory-style and string-prefix matching of a non-empty prefix differ both answers are accepted; unpaginated listings only (pagination: C37)")
 	run.Assume("histories: sequential uses inside one process, 2-3 uses exhaustively and one use of every alphabet member in cyclic order, one pather object per use, probe names only; concurrent uses and state shared through anything but the process (files, environment) are not explored")
 
 	var err error
@@ -828,7 +914,7 @@ func main() {
 	}
 	childEnv = append(childEnv, childEnvVar+"=1", "GOMAXPROCS=1")
 
-	maxComp, lead, idLen, budget := 2, 2, 4, 100*time.Second // measured 8-30 s wall at machine load ~60, 65-75 s at load ~110 (16 workers); the budget only cuts under heavier load
+	maxComp, lead, idLen, budget := 2, 2, 4, 150*time.Second // measured (with part C) 70-100 s wall with 4 workers at machine load ~60; the budget only cuts under heavier load
 	if run.Thorough() {
 		maxComp, lead, idLen, budget = 3, 3, 5, 800*time.Second
 	}
@@ -858,6 +944,7 @@ func main() {
 	const (
 		kindA = iota
 		kindHist
+		kindList
 	)
 	type job struct {
 		kind    int
@@ -895,6 +982,51 @@ func main() {
 	}
 	partA(soloRoots, base)
 	partA(extraSoloRoots, reduced)
+
+	// Part C: one fresh process per (listing backend, scheme, chunk of roots);
+	// inside it a fresh store and a fresh real client per (root, uploaded set).
+	// (quick: all roots of a (backend, scheme) in one process -- a process start
+	// of the full binary costs about as much as the listings of 5 roots)
+	maxSet, rootsPerChild := 3, 1000
+	if run.Thorough() {
+		maxSet, rootsPerChild = 0, 4
+	}
+	for _, s := range schemes {
+		u := listUniverse(s)
+		for i, n := range u {
+			if !validName(s, n) {
+				run.Fatal(fmt.Errorf("invalid %s listing name %q", s, n))
+			}
+			for k, o := range u {
+				if i != k && (n == o || strings.HasPrefix(refPath(s, "", o), refPath(s, "", n)+"/")) {
+					run.Fatal(fmt.Errorf("listing names %q and %q of %s cannot be stored side by side", n, o, s))
+				}
+			}
+		}
+	}
+	var ljobs []*job
+	listDomainSkipped := map[string][]string{}
+	for _, b := range listBackends {
+		var roots []string
+		for _, r := range listRoots() {
+			if inListDomain(b, r) {
+				roots = append(roots, r)
+			} else {
+				listDomainSkipped[b] = append(listDomainSkipped[b], r)
+			}
+		}
+		for _, s := range schemes {
+			for i := 0; i < len(roots); i += rootsPerChild {
+				e := i + rootsPerChild
+				if e > len(roots) {
+					e = len(roots)
+				}
+				sp := base
+				sp.Listing = &listSpec{Backend: b, Scheme: s, Roots: roots[i:e], MaxSet: maxSet}
+				ljobs = append(ljobs, &job{kind: kindList, sp: sp})
+			}
+		}
+	}
 
 	// Part B: one fresh process per maximal history (a history that is a proper
 	// prefix of another one is covered by the longer one's process, which is
@@ -968,7 +1100,7 @@ func main() {
 	for _, k := range hkeys {
 		hjobs = append(hjobs, &job{kind: kindHist, sp: historySpec(maximal[k], base), uses: maximal[k]})
 	}
-	// Job order: the long-lived histories (they also give their first use its
+	// Job order: the listing processes, the long-lived histories (they also give their first use its
 	// fresh-process reference), the reduced-domain part A jobs, then the full
 	// part A jobs (long) interleaved with the short histories, so that a time
 	// budget hit under heavy machine load cuts a tail of both parts.
@@ -978,7 +1110,8 @@ func main() {
 		nlong++
 	}
 	ajobs, short := jobs, hjobs[nlong:]
-	jobs = append([]*job(nil), hjobs[:nlong]...)
+	jobs = append([]*job(nil), ljobs...) // first: they do not wait for the small binary
+	jobs = append(jobs, hjobs[:nlong]...)
 	var fullA []*job
 	for _, j := range ajobs {
 		if j.sp.MaxComp == reduced.MaxComp {
@@ -1000,6 +1133,7 @@ func main() {
 		}
 	}
 
+	go patherExe() // built while the first listing processes run
 	deadline := time.Now().Add(budget)
 	var next int64 = -1
 	var wg sync.WaitGroup
@@ -1017,11 +1151,19 @@ func main() {
 					j.skipped = true
 					continue
 				}
+				t0 := time.Now()
 				r, err := runChild(j.sp, 5*time.Minute)
 				if err != nil {
 					run.Fatal(err)
 				}
 				j.rep = r
+				if os.Getenv("VERIF_C36_TIMING") != "" {
+					what := "A/B " + histKey(j.uses)
+					if j.sp.Listing != nil {
+						what = fmt.Sprintf("C %s %s %v", j.sp.Listing.Backend, j.sp.Listing.Scheme, j.sp.Listing.Roots)
+					}
+					fmt.Fprintf(os.Stderr, "timing: %6.2fs (at %5.1fs) %.90s\n", time.Since(t0).Seconds(), time.Since(deadline.Add(-budget)).Seconds(), what)
+				}
 			}
 		}()
 	}
@@ -1042,15 +1184,80 @@ func main() {
 	}
 	perScheme := map[string]int64{}
 	perRootClass := map[string]int64{}
-	var layoutAgree, layoutDisagree, failing, skippedCases, skippedHist int64
+	var layoutAgree, layoutDisagree, failing, skippedCases, skippedHist, skippedList int64
 	var firstDisagree *tcase
 	inherent := map[use]map[string]bool{}
+	// part C counters, per backend
+	type listCount struct {
+		Accepted     int64 `json:"configurations_accepted_by_constructor"`
+		Rejected     int64 `json:"configurations_rejected_by_constructor"`
+		Sets         int64 `json:"uploaded_sets"`
+		Uploads      int64 `json:"uploads"`
+		Lists        int64 `json:"listings"`
+		PrefixLists  int64 `json:"listings_with_non_empty_prefix"`
+		Reported     int64 `json:"names_reported"`
+		Placeholders int64 `json:"hdfs_catalog_placeholders_accepted"`
+		Failing      int64 `json:"failing_observations"`
+	}
+	listCounts := map[string]*listCount{}
+	listsPerRootClass := map[string]int64{}
+	listRejected := map[string]map[string]string{}
+	type listFailAt struct {
+		backend, scheme string
+		f               listFail
+	}
+	var listFails []listFailAt
+	listClassesRun := map[string]map[string]bool{} // "backend scheme" -> root classes listed under
 	for _, j := range jobs {
 		if j.skipped {
-			if j.kind == kindA {
+			switch j.kind {
+			case kindA:
 				skippedCases += int64(len(j.names))
-			} else {
+			case kindHist:
 				skippedHist++
+			default:
+				skippedList++
+			}
+			continue
+		}
+		if j.kind == kindList {
+			ls := j.sp.Listing
+			lc := listCounts[ls.Backend]
+			if lc == nil {
+				lc = &listCount{}
+				listCounts[ls.Backend] = lc
+			}
+			for _, rr := range j.rep.Listing.Roots {
+				if rr.Rejected != "" {
+					lc.Rejected++
+					if listRejected[ls.Backend] == nil {
+						listRejected[ls.Backend] = map[string]string{}
+					}
+					listRejected[ls.Backend][rr.Root] = rr.Rejected
+					continue
+				}
+				lc.Accepted++
+				lc.Sets += rr.Sets
+				lc.Uploads += rr.Uploads
+				lc.Lists += rr.Lists
+				lc.PrefixLists += rr.PrefixLists
+				lc.Reported += rr.Reported
+				lc.Placeholders += rr.Placeholders
+				listsPerRootClass[listRootClass(rr.Root)] += rr.Lists
+				run.Eval(int(rr.Lists))
+				for i := int64(0); i < rr.Sets; i++ {
+					run.Distinct(fmt.Sprintf("L|%s|%s|%s|%d", ls.Backend, ls.Scheme, rr.Root, i))
+				}
+				bs := ls.Backend + " " + ls.Scheme
+				if listClassesRun[bs] == nil {
+					listClassesRun[bs] = map[string]bool{}
+				}
+				listClassesRun[bs][listRootClass(rr.Root)] = true
+				for _, f := range rr.Fails {
+					lc.Failing += f.Count
+					failing += f.Count
+					listFails = append(listFails, listFailAt{ls.Backend, ls.Scheme, f})
+				}
 			}
 			continue
 		}
@@ -1079,6 +1286,34 @@ func main() {
 			if j.sp.Steps[0].Lo == 0 && (u.Root == "/" || (u.Root == "/a/b/" && u.Scheme == namepath.DockerTag)) && sr.Sample != nil {
 				run.Sample(sr.Sample)
 			}
+		}
+	}
+	// Part C fingerprints: clause x prefix kind x root class -- unless the clause
+	// fails under EVERY root class the (backend, scheme) was listed under (a
+	// failure that does not depend on the root spelling): one fingerprint.
+	{
+		classesFailing := map[string]map[string]bool{}
+		key := func(x listFailAt) string {
+			return listFP(x.backend, x.scheme, x.f, "")
+		}
+		for _, x := range listFails {
+			k := key(x)
+			if classesFailing[k] == nil {
+				classesFailing[k] = map[string]bool{}
+			}
+			classesFailing[k][listRootClass(x.f.Root)] = true
+		}
+		for _, x := range listFails {
+			f := x.f
+			class := listRootClass(f.Root)
+			if ran := listClassesRun[x.backend+" "+x.scheme]; len(ran) > 1 && len(classesFailing[key(x)]) == len(ran) {
+				class = "every root spelling"
+			}
+			d := listDetail(x.backend, x.scheme, f)
+			d["root_class_of_fingerprint"] = class
+			note(listFP(x.backend, x.scheme, f, class),
+				fmt.Sprintf("L|%02d|%03d|%03d|%s\x00%s\x00%s", len(f.Uploaded), len(f.Root)+len(f.Prefix), len(strings.Join(f.Uploaded, ",")), f.Root, strings.Join(f.Uploaded, "\x00"), f.Prefix),
+				d, f.Count)
 		}
 	}
 	// Failures of the FIRST use of a history are failures of that use in a fresh
@@ -1174,9 +1409,27 @@ func main() {
 		w.detail["failing_cases_in_class"] = nPerFp[fp]
 		run.Violation(fp, w.detail)
 	}
-	if skippedCases > 0 || skippedHist > 0 {
-		run.NotExhaustive(fmt.Sprintf("time budget hit: %d single-use cases and %d histories not executed", skippedCases, skippedHist))
+	if skippedCases > 0 || skippedHist > 0 || skippedList > 0 {
+		run.NotExhaustive(fmt.Sprintf("time budget hit: %d single-use cases, %d histories and %d listing processes not executed", skippedCases, skippedHist, skippedList))
 	}
+	if skippedList == 0 {
+		for _, b := range listBackends {
+			if lc := listCounts[b]; lc == nil || lc.Accepted == 0 || lc.PrefixLists == 0 {
+				run.Fatal(fmt.Errorf("listing part is vacuous for backend %s: %+v", b, lc))
+			}
+		}
+		if listsPerRootClass["root is the filesystem root"] == 0 || listsPerRootClass["empty root"] == 0 {
+			run.Fatal(fmt.Errorf("listing part never listed under the filesystem root / the empty root: %v", listsPerRootClass))
+		}
+	}
+	run.Sample(map[string]interface{}{"listing": ljobs[0].sp.Listing, "universe": listUniverse(ljobs[0].sp.Listing.Scheme)})
+	run.Set("listing_per_backend", listCounts)
+	run.Set("listing_observations_per_root_class", listsPerRootClass)
+	run.Set("listing_roots", listRoots())
+	run.Set("listing_roots_outside_backend_domain", listDomainSkipped)
+	run.Set("listing_roots_rejected_by_constructor", listRejected)
+	run.Set("listing_processes", len(ljobs))
+	run.Set("pather_children_run", smallNote)
 	nsample := 0
 	for _, j := range jobs {
 		if j.kind == kindHist && !j.skipped && nsample < 2 && len(j.uses) >= 2 &&
